@@ -1152,6 +1152,13 @@ def yield_neutral(ctx, rr):
             only_yield = all(isinstance(s, ast.Expr) and isinstance(s.value, ast.Yield) for s in i.body)
             lone_test = i.test is calls[0]
             ok = only_yield and not i.orelse and lone_test
+            if not ok and isinstance(i.test, ast.UnaryOp) and isinstance(i.test.op, ast.Not) and i.test.operand is calls[0] and not i.orelse \
+                    and len(i.body) == 1 and isinstance(i.body[0], ast.Continue):
+                # `if not state.should_yield(k): continue` followed by nothing but the yield, at the end of a loop body
+                par = P.parent.get(id(i))
+                if isinstance(par, (ast.For, ast.While)) and i in par.body:
+                    rest = par.body[par.body.index(i) + 1:]
+                    ok = bool(rest) and all(isinstance(s, ast.Expr) and isinstance(s.value, ast.Yield) for s in rest)
             rr.ob(ctx.where(u, i), '%s: the yield point at line %d does nothing but yield' % (u.qual, i.lineno), ok=ok)
             if not ok:
                 what = 'an else/elif branch runs only in the rounds that do not yield' if i.orelse else \
@@ -1174,6 +1181,37 @@ def lazy_request(ctx, rr):
         if not name.endswith('_iter'):
             continue
         n += 1
+        prefix_stmts = getattr(P.inliner, 'eager_prefix', {}).get('Traph.' + name) if getattr(P, 'inliner', None) is not None else None
+        if u.is_gen and prefix_stmts:
+            # written as a non-generator wrapper around an inner generator (put back together by the inliner): the wrapper's own
+            # statements run at creation time.  They are source statements without types: index access is recognised by shape
+            # (self.<index object>.<method>(...), self.<private method>(...)) and by the effect summary of the methods of that name.
+            by_name = {}
+            for t in P.units:
+                by_name.setdefault(t.name, []).append(t)
+            bad_ = []
+            names_ = set()
+            for st_ in prefix_stmts:
+                for c in ast.walk(st_):
+                    if not (isinstance(c, ast.Call) and isinstance(c.func, ast.Attribute)):
+                        continue
+                    recv_ = ast.unparse(c.func.value)
+                    mname = c.func.attr
+                    if mname.endswith('__encode') or not recv_.startswith('self'):
+                        continue
+                    cands = [t for t in by_name.get(mname, []) + by_name.get(mname.replace('_Traph', ''), []) if t.cls in INDEX or t.cls == 'Traph']
+                    if not cands:
+                        continue
+                    writes_ = any(ctx.E.writes[t] for t in cands)
+                    assigned = isinstance(st_, ast.Assign) and any(x is c for x in ast.walk(st_.value))
+                    if writes_ or assigned:
+                        bad_.append((st_, c))
+            rr.ob(ctx.where(u), '%s: the wrapper around the inner generator touches the index only through the generator' % u.qual, ok=not bad_)
+            for st_, c in bad_[:2]:
+                rr.fail(ctx.finding('R-LAZY-REQUEST', u, u.node, '%s runs `%s` when the request is created, not when it is advanced: what it reads or writes then (a node copy, a '
+                                    'pointer) is stale by the first step if another request is advanced in between, and is written back over the newer block'
+                                    % (u.qual, ast.unparse(c)[:50]), stmt='%s: eager %s' % (u.qual, c.func.attr)))
+            continue
         if u.is_gen:
             rr.ob(ctx.where(u), '%s is a generator: nothing runs before the first step' % u.qual, ok=True)
             continue
